@@ -373,9 +373,12 @@ def run(ctx):
     for i in range(ngen):
         style = ['plain', 'genlike', 'weird'][i % 3]
         gen_docs.append(refgen.gen_ref_doc(rng, id_style=style, big=(i % 5 == 0)))
+    crafted = refgen.crafted_docs()
+    gen_docs = crafted + gen_docs
+    ngen = len(gen_docs)
     docs = ['@' + f for f in wit] + ['@' + f for f in corpus] + gen_docs
     labels = [os.path.relpath(f, vlib.VERIF) for f in wit] + [os.path.relpath(f, vlib.CORPUS) for f in corpus] + \
-             ['generated#%d' % i for i in range(ngen)]
+             ['crafted#%d' % i for i in range(len(crafted))] + ['generated#%d' % i for i in range(ngen - len(crafted))]
     # witnesses of the defects fixed for this property family must pass outright; other witnesses are ordinary inputs
     is_wit = [os.path.basename(f) in ('F08.svg', 'F09.svg', 'F13.svg') for f in wit] + [False] * (len(corpus) + ngen)
     outs = ctx.rvh_batch(binp, 'dump', ["-\t" + d for d in docs])
